@@ -145,3 +145,41 @@ def sym_name(e, atoms) -> str:
     if atoms is not None:
         atoms[t] = e
     return t
+
+
+def inline_locals(expr, fn_node, depth: int = 4, keep: set | None = None):
+    """Copy of `expr` in which every local that is assigned exactly once in `fn_node` by a plain `name = <expr>` (and is
+    not a loop/with/comprehension target, parameter or augmented-assigned name) is replaced by its defining expression,
+    recursively. `keep` names are left alone. Lets structural rules read `a = x > y; m = a * b` like `m = (x > y) * b`."""
+    import copy
+
+    keep = set(keep or ())
+    assigned: dict[str, list] = {}
+    blocked = {a.arg for a in ast.walk(fn_node) if isinstance(a, ast.arg)}
+    for n in ast.walk(fn_node):
+        if isinstance(n, ast.Assign):
+            for t in n.targets:
+                if isinstance(t, ast.Name):
+                    assigned.setdefault(t.id, []).append(n.value)
+                else:
+                    blocked |= {x.id for x in ast.walk(t) if isinstance(x, ast.Name) and isinstance(x.ctx, ast.Store)}
+        elif isinstance(n, (ast.AugAssign, ast.AnnAssign)) and isinstance(n.target, ast.Name):
+            blocked.add(n.target.id)
+        elif isinstance(n, (ast.For, ast.comprehension)):
+            blocked |= {x.id for x in ast.walk(n.target) if isinstance(x, ast.Name)}
+        elif isinstance(n, ast.withitem) and n.optional_vars is not None:
+            blocked |= {x.id for x in ast.walk(n.optional_vars) if isinstance(x, ast.Name)}
+        elif isinstance(n, ast.NamedExpr):
+            blocked.add(n.target.id)
+    single = {k: v[0] for k, v in assigned.items() if len(v) == 1 and k not in blocked and k not in keep}
+
+    class Sub(ast.NodeTransformer):
+        def __init__(self, d):
+            self.d = d
+
+        def visit_Name(self, node):
+            if isinstance(node.ctx, ast.Load) and node.id in single and self.d > 0:
+                return Sub(self.d - 1).visit(copy.deepcopy(single[node.id]))
+            return node
+
+    return Sub(depth).visit(copy.deepcopy(expr))
